@@ -15,7 +15,7 @@ From Coq Require Import List NArith Bool PeanoNat.
 From RopeVerif.Lib Require Import Text.
 From RopeVerif.C15 Require Import Syntax Scoping RopeScopes Fragment.
 From RopeVerif.C02 Require Import Occurrences.
-From RopeVerif.C01 Require Import Collector Rename.
+From RopeVerif.C01 Require Import Collector Rename OccTree AlphaSpec.
 Import ListNotations.
 
 Record pmod := {
@@ -39,6 +39,8 @@ Record case := {
   c_init : ident;
   c_call : ident;
   c_odd : list ident;
+  c_prop : ident;                  (* the identifier property *)
+  c_fresh : ident;                 (* the new name of the queries that are not keyword queries *)
   c_queries : list query
 }.
 
@@ -56,8 +58,8 @@ Definition is_unm (k : gkey) : bool := match k with GUnm => true | _ => false en
 Section Run.
   Variable c : case.
   Let bi := c_builtins c.
-  Let cx := map (fun m => mk_ctx bi (c_idents c) (c_odd c) (pm_name m) (pm_kwlike m) (pm_prog m)) (c_mods c).
-  Let skips := map pm_skip (c_mods c).
+  Let cx := map (fun m => mk_ctx bi (c_idents c) (c_odd c) (c_prop c) (pm_name m) (pm_kwlike m) (pm_prog m)) (c_mods c).
+  Let skips := map (fun m => pm_skip m ++ unvisited_ids (pm_prog m)) (c_mods c).
 
   Definition compared (j : nat) (t : tok) : bool :=
     negb (memN (t_id t) (nth j skips []))
@@ -76,7 +78,7 @@ Section Run.
      6 resource moves differ; 7 the model has no such token *)
   Definition whole_module : N := 999999.
 
-  Definition model_answer (q : query) : option result :=
+  Definition model_answer_gen (repaired : bool) (q : query) : option result :=
     let m := N.to_nat (q_mod q) in
     if N.eqb (q_tok q) whole_module then Some (module_rename bi (c_init c) (c_call c) cx compared m (q_kw q))
     else
@@ -84,12 +86,13 @@ Section Run.
       | None => None
       | Some (x, t) =>
           if negb (compared m t) then Some RUnmodelled
-          else Some (project_rename bi (c_init c) (c_call c) cx compared m (q_tok q) (q_kw q))
+          else Some (project_rename_gen bi (c_init c) (c_call c) cx repaired compared m (q_tok q) (q_kw q))
       end.
+  Definition model_answer := model_answer_gen false.
 
-  Definition check_query (q : query) : N :=
+  Definition check_query_gen (repaired : bool) (q : query) : N :=
     let m := N.to_nat (q_mod q) in
-    match model_answer q with
+    match model_answer_gen repaired q with
     | None => 7
     | Some ans =>
           match ans, q_obs q with
@@ -101,7 +104,10 @@ Section Run.
           | RRaised, _ => 4
           | _, ORaised => 4
           | RChanges loc edits moves, OChanges oloc oedits omoves =>
-              if negb (Bool.eqb loc oloc) then 5
+              (* rope finds the scope of the definition through its LINE: a local first assigned on a line that
+                 also starts a comprehension is not recognised as local (all modules are searched: slower, same
+                 result).  The model decides by ownership; only the unsafe direction is a disagreement. *)
+              if oloc && negb loc then 5
               else if negb (seteqN (map N.of_nat moves) omoves) then 6
               else
                 let mods := seq 0 (length cx) in
@@ -115,6 +121,14 @@ Section Run.
           end
     end%N.
 
+
+  (* the code as found, or the code with the proposed fixes for two recorded findings (see Rename.rename_key) *)
+  Definition check_query (q : query) : N :=
+    let r := check_query_gen false q in
+    if N.eqb r 0 then 0 else if N.eqb (check_query_gen true q) 0 then 0 else r.
+  (* 1: the observation is the repaired behaviour and not the behaviour as found *)
+  Definition repaired_seen (q : query) : N :=
+    if N.eqb (check_query_gen false q) 0 then 0 else if N.eqb (check_query_gen true q) 0 then 1 else 0.
 
   (* for the evidence: 0 not modelled / not compared, 1 refused, 2 raised, 3 local rename, 4 rename of a name
      seen from several modules (some edit outside the query's module), 5 other rename, 6 module rename *)
@@ -136,37 +150,74 @@ Section Run.
           end
     end%N.
 
-  Fixpoint first_bad (i : N) (qs : list query) : N :=
+  Fixpoint bad_from (i : N) (qs : list query) : list (N * N) :=
     match qs with
-    | [] => 0
+    | [] => []
     | q :: r => let code := check_query q in
-                if N.eqb code 0 then first_bad (N.succ i) r else (code + 10 * i)%N
+                if N.eqb code 0 then bad_from (N.succ i) r else (i, code) :: bad_from (N.succ i) r
     end.
 
-  (* 0: every query agrees; otherwise code + 10 * index of the first query that does not *)
-  Definition run_case : N := first_bad 0 (c_queries c).
+  (* the queries on which model and observation differ: (index of the query, code) *)
+  Definition run_case : list (N * N) := bad_from 0 (c_queries c).
+
+  (* the alpha theorem on the case.  Per module: inside C02's fragment / the structural hypothesis holds. *)
+  Let frags : list (bool * bool) :=
+    map (fun mx => let m := fst mx in let x := snd mx in
+                   (in_fragment_C02 bi (inh_of (x_inh x)) (c_init c) (c_call c) (x_ms x) (kw_of (x_kw x)) (pm_prog m),
+                    well_tokened (pm_nlines m) (pm_prog m) && fresh (pm_nlines m) (pm_prog m) (c_fresh c)))
+        (combine (c_mods c) cx).
+
+  (* 0 not applicable (keyword query, module rename, token that is not a core token or denotes no scope-owned
+       binding, binding seen from several modules);
+     1 inside the domain of C01_alpha_partial and its conclusion holds on every core token of the module;
+     2 inside the domain and the conclusion FAILS (would contradict the theorem);
+     3 outside C02's fragment, conclusion holds;   4 outside the fragment, conclusion fails;
+     5 inside the fragment but the structural hypothesis (well_tokened / fresh) does not hold *)
+  Definition alpha_class (q : query) : N :=
+    let m := N.to_nat (q_mod q) in
+    if q_kw q || N.eqb (q_tok q) whole_module then 0
+    else
+      match nth_error (c_mods c) m, token_of cx m (q_tok q), nth_error frags m with
+      | Some pm, Some (x, t), Some (frag, wt) =>
+          if negb (core t) then 0
+          else
+            let p := pm_prog pm in
+            let nl := pm_nlines pm in
+            match spec_binding bi (spec_tree nl p) t,
+                  project_rename bi (c_init c) (c_call c) cx (fun _ _ => true) m (q_tok q) false with
+            | BScope _, RChanges _ edits [] =>
+                if existsb (fun e => negb (Nat.eqb (fst e) m)) edits then 0
+                else
+                  let ids := rename_ids bi (inh_of (x_inh x)) (x_rt x) (c_init c) (c_call c) (x_ms x)
+                                        (kw_of (x_kw x)) (x_ts x) t in
+                  let holds := forallb (fun u => if core u
+                                                 then alpha_tok bi nl p ids (c_fresh c) (t_env u) (t_id u) (t_name u)
+                                                 else true) (x_ts x) in
+                  if frag then (if wt then (if holds then 1 else 2) else 5)
+                  else (if holds then 3 else 4)
+            | _, _ => 0
+            end
+      | _, _, _ => 0
+      end%N.
+  Definition alpha_classes : list N := map alpha_class (c_queries c).
   Definition classes : list N := map classify (c_queries c).
+  Definition repaired_count : N := fold_right N.add 0%N (map repaired_seen (c_queries c)).
 End Run.
 
-Fixpoint mismatches_from (i : N) (cs : list case) : list (N * N) :=
-  match cs with
-  | [] => []
-  | c :: r =>
-      let code := run_case c in
-      if N.eqb code 0 then mismatches_from (N.succ i) r else (i, code) :: mismatches_from (N.succ i) r
-  end.
-Definition mismatches (cs : list case) : list (N * N) := mismatches_from 0 cs.
+Definition mismatches (cs : list case) : list (list (N * N)) := map run_case cs.
 Definition all_classes (cs : list case) : list (list N) := map classes cs.
+Definition all_repaired (cs : list case) : list N := map repaired_count cs.
+Definition all_alpha (cs : list case) : list (list N) := map alpha_classes cs.
 
 (* debugging aid: the model's view of a case: per module, per token (id, key class, module of the key) *)
 Definition describe (c : case) : list (list (N * (N * N))) :=
   let bi := c_builtins c in
-  let cx := map (fun m => mk_ctx bi (c_idents c) (c_odd c) (pm_name m) (pm_kwlike m) (pm_prog m)) (c_mods c) in
+  let cx := map (fun m => mk_ctx bi (c_idents c) (c_odd c) (c_prop c) (pm_name m) (pm_kwlike m) (pm_prog m)) (c_mods c) in
   map (fun jc =>
          map (fun t => (t_id t,
                         match gkey_of bi (c_init c) (c_call c) cx (fst jc) (snd jc) t with
                         | GNone => (0, 0) | GErr => (1, 0) | GUnm => (2, 0)
-                        | GVar m _ _ => (3, N.of_nat m) | GMod m => (4, N.of_nat m) | GUnres => (5, 0)
+                        | GVar m _ _ => (3, N.of_nat m) | GMod m => (4, N.of_nat m) | GUnres => (5, 0) | GBuiltin _ => (6, 0)
                         end)) (x_ts (snd jc)))%N
       (enum_from 0 cx).
 
@@ -195,3 +246,19 @@ Fixpoint cmismatches_from (i : N) (cs : list ccase) : list N :=
   | c :: r => if run_ccase c then cmismatches_from (N.succ i) r else i :: cmismatches_from (N.succ i) r
   end.
 Definition cmismatches (cs : list ccase) : list N := cmismatches_from 0 cs.
+
+(* debugging aid: the model's answer to query number i: (kind, [(module, ids)]) with kind 0 not modelled, 1 refused,
+   2 raised, 3 changes (local), 4 changes (not local) *)
+Definition show_answer (c : case) (i : N) : N * list (N * list N) :=
+  match nth_error (c_queries c) (N.to_nat i) with
+  | None => (9, [])
+  | Some q =>
+      match model_answer c q with
+      | None => (8, [])
+      | Some RUnmodelled => (0, [])
+      | Some RRefused => (1, [])
+      | Some RRaised => (2, [])
+      | Some (RChanges loc edits moves) =>
+          (if loc then 3 else 4, map (fun e => (N.of_nat (fst e), snd e)) edits ++ map (fun m => (N.of_nat m, [999999])) moves)
+      end
+  end%N.
